@@ -94,8 +94,17 @@ def judge(case):
 def strategy(draw):
     large, very, mode = draw(gc.settings3())
     minimum = ow.minimum(large, very)
-    k = draw(st.integers(0, 9))
-    if k < 5:
+    k = draw(st.integers(0, 10))
+    if k == 10:
+        # the background only just admits the minimum against pure white / black, and the text already sits next to that extreme
+        ext = draw(st.sampled_from([(255, 255, 255), (0, 0, 0)]))
+        other = draw(gc.rgb())
+        u = draw(st.floats(0.0, 0.08))
+        bg = gc._closest_on_segment(ext, other, minimum * (1.0 + u))  # colour on the segment ext->other whose ratio against ext is about minimum*(1+u)
+        off = draw(st.tuples(st.integers(0, 24), st.integers(0, 24), st.integers(0, 24)))
+        text = tuple(min(255, max(0, ext[i] - off[i] if ext[i] else off[i])) for i in range(3))
+        meta = {}
+    elif k < 5:
         text, bg, meta = draw(gc.pair_near(thresholds=(minimum,), delta_lo=-0.55, delta_hi=-0.08, tight=0.55))
     elif k < 8:
         text, bg, meta = draw(gc.pair_near(thresholds=(ow.minimum(large, False), ow.minimum(large, True)), delta_lo=-0.3, delta_hi=0.05))
